@@ -1,5 +1,6 @@
 // Package c37 drives the real quicmemberlist member table and records one event per call
-// (binding B; validated by spec/MembersTrace.tla).
+// (binding B; validated by spec/MembersTrace.tla): sequentially (this file) and from several
+// goroutines at once (conc.go).
 package c37
 
 import (
@@ -158,8 +159,15 @@ func (e *env) runSeq(out *h.Out, seq []op) {
 }
 
 // vh C37 record --mode exhaustive --depth D --out f | --mode random --num N --len L --out f
+// vh C37 forced --in schedules --out f | vh C37 free --num N --base I --out f   (conc.go)
 func run(args []string) error {
 	fl := h.Flags(args)
+	if len(args) > 0 && args[0] == "forced" {
+		return runForced(fl)
+	}
+	if len(args) > 0 && args[0] == "free" {
+		return runFree(fl)
+	}
 	out, err := h.NewOut(fl["out"])
 	if err != nil {
 		return err
